@@ -49,6 +49,11 @@ type Term struct {
 	Idx    int      // OpUF output index
 	Lo, Hi *big.Int
 	Wrap   bool
+	// Refined interval / wrap flag: as above, but computed under the range facts that the
+	// constraint set itself asserts on atoms (valid wherever those facts are assumed). Set by
+	// (*Ctx).Refine.
+	RLo, RHi *big.Int
+	RWrap    bool
 	// Atoms only:
 	Kind string // input, hint, bit, muladd, reduce, inverse, hasinv, permgl, permbn, chunk, ...
 	Site string // static call site (call stack) that created the atom
